@@ -232,13 +232,56 @@ def gen_value(rng, typ):
     raise KeyError(typ)
 
 
+def tname(u):
+    """a rule type name as a token of the line protocol: raw when it can be one, hex:<hex> otherwise"""
+    if u and all(33 <= ord(c) < 127 for c in u) and not u.startswith("hex:"):
+        return u
+    return "hex:x" + u.encode("utf-8").hex()
+
+
+def unknown_type_names():
+    """names that are NOT registered but are near a registered one: every proper prefix and suffix, other letter
+    cases, the separator dropped / replaced / doubled / left dangling - what a caller mistypes, and what a helper
+    that tries to be helpful about an unknown name takes apart"""
+    out = []
+    seen = set(ALL_TYPES)
+
+    def add(u):
+        if u not in seen and len(u) <= 40:
+            seen.add(u)
+            out.append(u)
+    for t in ALL_TYPES:
+        for i in range(len(t)):
+            add(t[:i])
+            add(t[i:] if i else t + t)
+        for v in (t.upper(), t.lower(), t.title(), t.swapcase(), t[0].upper() + t[1:], t + " ", " " + t, t + "_", "_" + t,
+                  t + "s", t[:-1] + t[-1].upper()):
+            add(v)
+        if "_" in t:
+            a, b = t.split("_", 1)
+            for sep in ("", "-", " ", "__", "_-", "."):
+                add(a + sep + b)
+                add(a + sep + b[:1].upper() + b[1:])
+            for sep in ("_", "-", " ", "__", "_-", "_ _"):
+                add(a + sep)
+                add(a.upper() + sep)
+                add(a.title() + sep)
+                add(sep + b)
+    for u in ("\x00", "\n", "ex\x00", "é", "ex_é"):
+        add(u)
+    return out
+
+
 def malform(rng, typ, text):
     """text outside the documented format: wrong separator, non-numeric field, missing / extra part, unknown unit"""
     kind = rng.randrange(6)
     if typ == "weekNumMode":
         return None
     if typ == "weekMonth":
-        return rng.choice([text[1:], text[:-1], text.replace(":", "=", 1), "[" + text + "]", text.replace('"', "'"), ""])
+        return rng.choice([text[1:], text[:-1], text.replace(":", "=", 1), "[" + text + "]", text.replace('"', "'"), "",
+                           # an extra part after the complete object: a closing bracket of either kind, another value, text
+                           text + "}", text + " }", text + "]", text + "\n]", text + "}}", text + "]x", text + "} 1", text + "x",
+                           text + " 5", text + "{}", text + text, text + ",", text + '"', text + "}" + text])
     if typ == "duration":
         num = text.split(" ")[0]
         return rng.choice([num + " x", num + " days", num + "d", num, num + "  d", "abc d", num + " d d", " " + text])
@@ -300,9 +343,8 @@ class _C08(_RulesBase):
             for _ in range(n // 12):
                 text, _ = gen_value(rng, typ)
                 breqs.append("rules decode %s %s bad" % (typ, hexs(exotic(rng, text))))
-        for u in ("nosuch", "Start", "dayTime ", "", "year2"):
-            if u:
-                breqs.append("rules decode %s %s bad" % (u, hexs("1")))
+        for u in ["nosuch", "Start", "dayTime ", "", "year2"] + unknown_type_names():
+            breqs.append("rules decode %s %s bad" % (tname(u), hexs("1")))
         sts.append(Stream("rules-malformed", breqs, compare=compare_lines))
         return sts
 
@@ -385,9 +427,11 @@ class _C09(_RulesBase):
                     continue   # spans beyond 10^6 integers are a documented resource limit, not part of the claim
                 mreqs.append("rules decode %s %s" % (typ, hexs(text)))
         for u in ("nosuch", "Start", "", "float", "int", "HMS"):
-            if u:
-                for t in ("1", "", "1/1/1", "a"):
-                    mreqs.append("rules decode %s %s" % (u, hexs(t)))
+            for t in ("1", "", "1/1/1", "a"):
+                mreqs.append("rules decode %s %s" % (tname(u), hexs(t)))
+        for u in unknown_type_names():
+            for t in ("1", ""):
+                mreqs.append("rules decode %s %s" % (tname(u), hexs(t)))
         # the JSON-valued rule type: every kind of JSON value where the object is expected, and inside it (null, true, a
         # string, an array, a nested object, a fraction, an exponent, a duplicate / unknown / differently-cased key),
         # with JSON white space around — plus texts that are almost JSON
